@@ -240,3 +240,23 @@ Qed.
 
 Theorem hyb_enc_len_x_ok w rs : hyb_enc_len_x w rs = hyb_enc_len w rs.
 Proof. unfold hyb_enc_len_x, hyb_enc_len. now rewrite hyb_enc_x_ok, lenN_ok. Qed.
+
+(* the same theorem in the shape used by the page-level proofs (Format/ *): non-empty runs, n as an N bound *)
+Definition run_ok (w : N) (r : hrun) : Prop :=
+  match r with
+  | RLE c v => 0 < c /\ v < 2 ^ w
+  | BP vs => vs <> [] /\ Forall (fun v => v < 2 ^ w) vs
+  end.
+
+Lemma run_ok_wf w r : run_ok w r -> run_wf w r.
+Proof. destruct r; cbn; tauto. Qed.
+
+Theorem hyb_roundtrip_ok : forall strict w n rs rest,
+  Forall (run_ok w) rs -> n <= N.of_nat (length (concat (map run_vals rs))) ->
+  exists r, hyb_dec strict w n (hyb_enc w rs ++ rest)
+            = Some (firstn (N.to_nat n) (concat (map run_vals rs)), r).
+Proof.
+  intros strict w n rs rest H Hn. apply hyb_roundtrip.
+  - eapply Forall_impl; [|exact H]. apply run_ok_wf.
+  - unfold allvals. lia.
+Qed.
